@@ -112,11 +112,16 @@ def cookieSafe (v : Str) : Bool := v.all fun c => validCookieValueByte c && c !=
 /-- a Go string: every character stands for one byte -/
 def Bytes (s : Str) : Prop := ∀ c ∈ s, c.toNat < 256
 
+/-- two cookie strings no key tells apart: they decode to the same ciphertext‖nonce.
+    (`base64.RawURLEncoding.DecodeString` is not strict — strings that differ only in the unused trailing bits
+    of the last character decode alike — so authenticity cannot be string equality.) -/
+def Cipher.same (c : Cipher) (v w : Str) : Prop := ∀ k, c.unbox k v = c.unbox k w
+
 /-- the ideal-AEAD hypothesis of the theorems (plaintexts are byte strings) -/
 structure Cipher.Ideal (c : Cipher) : Prop where
   unbox_box : ∀ k n m, Bytes m → c.unbox k (c.box k n m) = some m
-  /-- anything that opens under `k` was minted under `k`, for that plaintext -/
-  authentic : ∀ k v m, c.unbox k v = some m → ∃ n, v = c.box k n m
+  /-- anything that opens under `k` is (an encoding of) a cookie minted under `k` for that plaintext -/
+  authentic : ∀ k v m, c.unbox k v = some m → ∃ n, c.same v (c.box k n m)
   key_sep : ∀ k k' n m, k ≠ k' → c.unbox k' (c.box k n m) = none
   safe : ∀ k n m, Bytes m → cookieSafe (c.box k n m) = true
 
